@@ -8,8 +8,11 @@ import (
 	"fmt"
 	"go/types"
 	"os"
+	"path/filepath"
 	"sort"
 	"strings"
+
+	"golang.org/x/tools/go/types/objectpath"
 )
 
 var verifTransformers = map[string]*transformer{}
@@ -165,6 +168,26 @@ var _ = func() bool {
 			return "notdep"
 		}
 		return "err"
+	}
+	// apiobjs <pkg> -> objectpath|name|file base|offset for every defined object that has an object path
+	// (computed with x/tools objectpath directly, independently of commandMap)
+	verifOps["apiobjs"] = func(a []string) string {
+		tf := verifTransformer(string(verifUnhex(a[0])))
+		var enc objectpath.Encoder
+		var l []string
+		for id, obj := range tf.info.Defs {
+			if obj == nil {
+				continue
+			}
+			path, err := enc.For(obj)
+			if err != nil {
+				continue
+			}
+			pos := fset.Position(id.Pos())
+			l = append(l, fmt.Sprintf("%s|%s|%s|%d", path, obj.Name(), filepath.Base(pos.Filename), pos.Offset))
+		}
+		sort.Strings(l)
+		return verifList(l)
 	}
 	// linkname <curpkg> <localName> <newName> -> the real transformLinkname
 	verifOps["linkname"] = func(a []string) string {
